@@ -804,3 +804,14 @@ GROUPS["p11"] += [
       "        match load_dict(&config.user_dict_path).await {\n            Ok(d) => d,\n            Err(err) => {\n                info!(\"{err}\");\n                MutableDictionary::new()\n            }\n        }\n    }\n\n    async fn save_user_dictionary",
       None),
 ]
+
+# C19: records written as one joined text without / with a terminating newline (the shape of seeded/C19-d)
+_SW_OLD = "        for record in &self.records {\n            let mut serializer = Serializer::new(&mut *w);\n            record.serialize(&mut serializer)?;\n            writeln!(w)?;\n        }\n\n        Ok(())\n    }\n\n    /// Read records from a buffer into `self`."
+_SW_BATCH = "        let _ = (Serializer::new(Vec::new()), |r: &Record| r.serialize(serde_json::value::Serializer));\n        let lines = self\n            .records\n            .iter()\n            .map(serde_json::to_string)\n            .collect::<Result<Vec<_>, _>>()?;\n\n        w.write_all(lines.join(\"\\n\").as_bytes())%s\n    }\n\n    /// Read records from a buffer into `self`."
+GROUPS["g24"] = [
+    E("c19-batch-join-no-final-newline", ["C19"], "harper-stats/src/lib.rs", _SW_OLD, _SW_BATCH % "", "R-C19-line:Stats::write:newline"),
+]
+GROUPS["p12"] = [
+    E("p-c19-batch-join-with-final-newline", ["C19"], "harper-stats/src/lib.rs", _SW_OLD,
+      _SW_BATCH % "?;\n        if !lines.is_empty() {\n            w.write_all(b\"\\n\")?;\n        }\n        Ok(())", None),
+]
